@@ -4,7 +4,7 @@
    tools/rect/pseudobool.py, with the isclause repair fixes/C07-isclause-gt0.diff). *)
 From Coq Require Import ZArith List Bool String.
 From FrameModel Require Import PB.Expr PB.Cnf PB.Amo PB.Robdd PB.Codify PB.Sat
-  PB.AmoFacts PB.RobddFacts PB.CodifyFacts PB.SatFacts.
+  PB.AmoFacts PB.RobddFacts PB.CodifyFacts PB.SatFacts PB.Dag PB.DagPost PB.DagPostFacts.
 Import ListNotations.
 Local Open Scope nat_scope.
 
@@ -105,3 +105,31 @@ Theorem C07_solve_exact : forall (sat_o : cnf -> option valuation),
          (forall v b, value e (User v, b) = lit (user_part e) v b)).
 Proof. exact solve_exact. Qed.
 Print Assumptions C07_solve_exact.
+
+(* ---- histories over shared objects (PB/Dag.v, PB/DagPost.v): the posted literals and
+   inequalities are objects bound to names, reused, and derived from each other between the posts.
+   [compile] succeeds exactly on the well-typed histories and lists the posts with the tree each
+   posted inequality was built from; [accepted_direct] reads an inequality by DIRECT integer
+   evaluation of the two sides as the user wrote them (not from the stored normal form) ---- *)
+Theorem C07_dag_post_exact : forall (m0 : memory) ops cps vs trees, mem_wf m0 ->
+  compile [] [] ops = Some (cps, vs, trees) ->
+  exists m s sts, run_hist m0 empty_mgr [] ops = Some (m, s, vs, sts) /\
+    List.length sts = List.length cps /\
+    forall a, ext a (clauses s) <-> accepted_direct a cps sts.
+Proof. exact dag_post_exact. Qed.
+Print Assumptions C07_dag_post_exact.
+
+(* with any sound and complete solver: satisfiable iff some assignment satisfies what the user
+   wrote; the exposed model satisfies it; evalexpr of any bound expression object is the direct
+   integer value of the tree that built it *)
+Theorem C07_dag_solve_exact : forall (sat_o : cnf -> option valuation),
+  (forall f e, sat_o f = Some e -> sat e f) ->
+  (forall f, sat_o f = None -> forall e, ~ sat e f) ->
+  forall (m0 : memory) ops cps vs trees, mem_wf m0 -> compile [] [] ops = Some (cps, vs, trees) ->
+    exists m s sts, run_hist m0 empty_mgr [] ops = Some (m, s, vs, sts) /\
+      ((exists e, solve sat_o s = Some e) <-> (exists a, accepted_direct a cps sts)) /\
+      (forall e, solve sat_o s = Some e ->
+         accepted_direct (user_part e) cps sts /\
+         Forall2 (fun v t => forall x, v = VExpr x -> evalexpr e x = ueval (user_part e) t) vs trees).
+Proof. exact dag_solve_exact. Qed.
+Print Assumptions C07_dag_solve_exact.
